@@ -18,7 +18,7 @@ ASSUMPTIONS = ["a process forked from the parent that has imported pygradflow bu
                "digest = sha256 over the bytes of every trial (inputs, rho, dt, lambda, accepted, outputs) and of the result"]
 FRESH = True
 CASE_ALARM_S = 300
-OPS_QUICK = ["default", "exact_filter", "resolve", "scaled", "scaled_b", "lamerr", "cb_abort", "pareto"]
+OPS_QUICK = ["default", "exact_filter", "resolve", "scaled", "scaled_b", "lamerr", "cb_abort", "pareto", "nostart_then_y"]
 OPS_THOROUGH = OPS_QUICK + ["unsym", "derivcheck", "debug", "integration", "second", "rcond_single", "exp_far"]
 
 
@@ -142,6 +142,23 @@ def run_history(hist):
         if op == "integration":
             out.append(integration_digest())
             continue
+        if op in ("nostart_y", "nostart_then_y"):
+            # solve() without a start (origin projected onto the box), optionally with starting multipliers; in "nostart_then_y" the same
+            # solver object has been solved without multipliers before
+            from pgfmc.drive import grid as G
+            from pgfmc.drive.problems import UserProblem
+
+            spec = G.core_specs()[3]
+            prob = UserProblem(spec)
+            params = R.make_params({"iteration_limit": 60})
+            solver = R.RecSolver(prob, params)
+            y0 = np.linspace(0.75, -0.5, max(len(spec["rows"]), 1))[: len(spec["rows"])]
+            if op == "nostart_then_y":
+                R.run_solve(prob, params, None, None, solver=solver, errstate=False)
+            rec = R.run_solve(prob, params, None, y0, solver=solver, errstate=False)
+            out.append(("nostart_y" if op == "nostart_y" else "resolve:nostart_y", rec.digest))
+            last = None
+            continue
         if op == "resolve":
             if last is None:
                 spec, prob, params, lvl = op_setup("default")
@@ -219,12 +236,15 @@ def references(tier):
     ctx = mp.get_context("fork")
     refs = {}
     for op in ops(tier):
-        if op == "resolve":
+        if op in ("resolve", "nostart_then_y"):
             continue
         with ctx.Pool(1, maxtasksperchild=1) as pool:
             refs[op] = pool.apply(_alone, (op,))
     with ctx.Pool(1, maxtasksperchild=1) as pool:
         refs["cb_abort_plain"] = pool.apply(_alone_plain)
+    with ctx.Pool(1, maxtasksperchild=1) as pool:
+        refs["nostart_y"] = pool.apply(_alone, ("nostart_y",))
+    refs.pop("nostart_then_y", None)
     return refs
 
 
